@@ -28,6 +28,14 @@ def programs(tier):
     ops = ['+', '-', '*', '/', '%%', '==', '!=', '>', '<', '>=', '<=']
     for op in ops:
         add('F1-binary', 'let r = %s %s %s;' % (P(1), op, P(2)), 2)
+    # two symbolic f64 leaves (finite, non-negative: the language has no negative or exponent literals) under every operator, and a
+    # float against an int (a type error for every operator but == and !=)
+    for op in ops:
+        if op != '%%':
+            add('F1-float', 'let r = %s.5 %s %s.5;' % (P(1), op, P(2)), 2)
+        add('F1-float', 'let r = %s.5 %s %s;' % (P(1), op, P(2)), 2)
+    for t in ['let r = select (%s.5 >= %s.5, 0) => {true = 1};', 'let r = filter(func (v) => v >= %s.5, [0.5, %s.5]);', 'let r = (%s.5 <= %s.5) && (%s.5 >= %s.5);' % (P(1), P(2), P(1), P(2))]:
+        add('F1-float', t if t.count('%s') == 0 else t % (P(1), P(2)), 2)
     for t in ['let r = %s + 1.5;' % P(1), 'let r = "a" + "b";', 'let r = [%s] + [%s, 3];' % (P(1), P(2)), 'let r = "a" + %s;' % P(1),
               'let r = %s == "x";' % P(1), 'let r = %s == NULL;' % P(1), 'let r = NULL == NULL;', 'let r = 1.5 + 2.25;', 'let r = 1.5 > %s;' % P(1),
               'let r = [%s, 2] == [%s, 2];' % (P(1), P(2)), 'let r = {a = %s} == {a = %s};' % (P(1), P(2)), 'let r = {a = 1, b = 2} == {a = 1};',
@@ -123,13 +131,19 @@ def harness(ctx, case):
     ucgrun.install_parse_override(prog)
     stmts = ucgrun.parse_ok(ctx, case['text'])
     ints = {i: ctx.bv('a%d' % i, 64) for i in range(1, case['n'] + 1)}
+    floats = {}
+    for i in range(1, case['n'] + 1):
+        if P(i) + '.5' in case['text']:
+            f = ctx.fp('f%d' % i)
+            ctx.assume(z3.And(z3.Not(z3.fpIsNaN(f)), z3.Not(z3.fpIsInf(f)), z3.Not(z3.fpIsNegative(f)), z3.fpLEQ(f, z3.FPVal(1e15, z3.Float64()))))
+            floats[i] = f
     if case.get('assume') == 'range2':
         A, E = ints[1], ints[2]
         ctx.assume(z3.And(z3.BVSubNoOverflow(E, A), z3.BVSubNoUnderflow(E, A, True), E - A <= 3, E - A >= -1))
     if case.get('assume') == 'range3':
         A, E, S = ints[1], ints[2], ints[3]
         ctx.assume(z3.And(S >= -1, S <= 3, z3.BVSubNoOverflow(E, A), z3.BVSubNoUnderflow(E, A, True), E - A <= 6, E - A >= -1))
-    stmts2 = SP.subst(prog, stmts, ints)
+    stmts2 = SP.subst(prog, stmts, ints, floats)
     out = {'reached': False, 'asserts': 0, 'violations': []}
     vm_panic = None
     try:
@@ -154,7 +168,7 @@ def harness(ctx, case):
     def report(key, what, extra=None, expect=None):
         key = key + ':sk=' + sk          # the skeleton that fails: another skeleton failing the same way is a new violation
         m = ctx.model(extra)
-        text = SP.render_text(case['text'], m, ctx, ints)
+        text = SP.render_text(case['text'], m, ctx, ints, floats=floats)
         exp = None
         if expect is not None:
             exp = expect(m)
@@ -253,7 +267,7 @@ def make_judge(v):
 def run(fw):
     ps = programs(fw.tier)
     fams = sorted({p['fam'] for p in ps})
-    fw.bounds.update({'skeletons': len(ps), 'families': fams, 'symbolic_leaves_per_program': '1-3 i64 (BitVec 64)',
+    fw.bounds.update({'skeletons': len(ps), 'families': fams, 'symbolic_leaves_per_program': '1-3 i64 (BitVec 64); family F1-float: 2 f64 (finite, non-negative, <= 1e15)',
                       'ranges': '0..3 (a:b) / 0..6 (a:s:b) span', 'lists/tuples/strings': '<= 3 elements (structure is the bound)',
                       'outside': 'programs deeper or longer than the skeletons; the parser (C02/C11); regex operators; casts, format strings (C04 kernels only), '
                                  'import/include/out/convert (C09/C14/C15); float text rendering'})
@@ -262,7 +276,7 @@ def run(fw):
     for v in fw.violations:
         v['judge'] = make_judge(v)
     skipped = 0
-    fw.assumptions += ['std/alloc calls are abstract-datatype builtins (listed)', 'symbolic leaves are integers; strings, floats and booleans in the skeletons are concrete or derived from comparisons',
+    fw.assumptions += ['std/alloc calls are abstract-datatype builtins (listed)', 'symbolic leaves are integers (and f64 in family F1-float); strings and booleans in the skeletons are concrete or derived from comparisons',
                        'Environment assembled with real registries and assert collector but without the standard library (no skeleton imports it)']
     return fw.finish(level='translation_validation', technique='symbolic execution of rustc MIR (translator + VM) vs a definitional evaluator; z3 validity query per binding per path',
                      extra={'programs': len(ps), 'disagreements_checked': len(fw.violations)})
